@@ -14,7 +14,7 @@ pub fn parse(fields: &Fields, base_data_size: BaseDataSize) -> Result<Vec<FieldD
     let mut field_definitions = Vec::with_capacity(fields.len());
 
     for field in fields {
-        match parse_field(base_data_size.internal, field) {
+        match parse_field(base_data_size.exposed, field) {
             Ok(def) => field_definitions.push(def),
             Err(ts) => return Err(ts),
         }
@@ -390,6 +390,17 @@ fn parse_field(base_data_size: usize, field: &Field) -> Result<FieldDefinition> 
                     "bitfield!: Field {} is declared as array, but with fewer than 2 elements.",
                     field_name
                 ),
+            ));
+        }
+    } else {
+        // Verify bounds for non-array fields
+        let highest_bit_index_in_ranges = ranges.iter().map(|range| range.end).max().unwrap_or(0);
+        if highest_bit_index_in_ranges > base_data_size {
+            return Err(Error::new_spanned(
+                field.attrs.first(),
+                format!(
+                    "bitfield!: Field {} requires {highest_bit_index_in_ranges} bits, but only has ({})", field_name, base_data_size
+                )
             ));
         }
     }
